@@ -104,6 +104,16 @@ C15_NeverTwice == \A i \in obs : \A a, b \in 1..Len(calls[i]) : a # b => calls[i
 C15_SplitInvariant ==      \* the outcome depends on the total only, not on how it was cut
     Quiescent => \A i \in obs : calls[i] = Expected(i, performed)
 
+(* ---- the counter abstraction DriverInd.tla (inductive invariant discharged by Apalache for unbounded call lengths,
+        numbers of calls / rebuilds and intervals) is an abstraction of THIS machine, observer by observer ------------ *)
+DI(i) == INSTANCE DriverInd WITH
+            iv <- i,
+            zeroObs <- Cardinality({k \in 1..Len(calls[i]) : calls[i][k] = 0}),
+            lastObs <- IF Len(calls[i]) = 0 THEN -1 ELSE calls[i][Len(calls[i])]
+C15_AbstractionInv == \A i \in obs : DI(i)!IndInv
+C15_AbstractionStep == [][\A i \in obs : \/ (Len(plan) > 0 /\ DI(i)!Begin(Head(plan).n))
+                                          \/ DI(i)!Rebuild \/ DI(i)!StepOnce \/ DI(i)!End]_vars
+
 (* ---- liveness: every plan is eventually executed completely (no call spins or stalls) ------------- *)
 FairSpec == Spec /\ WF_vars(Next)
 C15_PlanCompletes == <>Quiescent
